@@ -88,6 +88,7 @@ fn swapped_fen(fen: &str) -> String {
 pub struct Emit<W: Write> {
     pub out: W,
     pub positions: u64,
+    pub perturb_every: u64,
 }
 
 impl<W: Write> Emit<W> {
@@ -133,6 +134,67 @@ impl<W: Write> Emit<W> {
         )
         .unwrap();
         let _ = &mut reload;
+        if self.perturb_every > 0 && self.positions % self.perturb_every == 0 {
+            self.perturb(b);
+        }
+    }
+
+    /// every single-component perturbation of `b`: content of each square (12 other contents), side to move,
+    /// each castling right, every other en-passant file value; reports how many changed the from-scratch key
+    pub fn perturb(&mut self, b: &Board) {
+        use crate::board::ply::castling::{CastlingKind, CastlingStatus};
+        let k0 = bv::scratch_key(b);
+        let (mut total, mut changed, mut acc) = (0u64, 0u64, 0u64);
+        let mut fails: Vec<String> = vec![];
+        let mut note = |k: u64, what: String, total: &mut u64, changed: &mut u64, acc: &mut u64| {
+            *total += 1;
+            *acc ^= k.rotate_left((*total % 64) as u32);
+            if k != k0 {
+                *changed += 1;
+            } else if fails.len() < 4 {
+                fails.push(what);
+            }
+        };
+        for sq in 0..64u8 {
+            let square = Square::from(sq);
+            let cur = b.get_piece(square);
+            for code in 0..13usize {
+                let newc = if code == 12 { None } else { Some(kind_of_code(code)) };
+                if newc == cur {
+                    continue;
+                }
+                let mut b2 = b.clone();
+                if let Some(k) = cur {
+                    b2.remove_piece(square, k);
+                }
+                if let Some(k) = newc {
+                    b2.add_piece(square, k);
+                }
+                note(bv::scratch_key(&b2), format!("sq{sq}:{code}"), &mut total, &mut changed, &mut acc);
+            }
+        }
+        {
+            let mut b2 = b.clone();
+            b2.current_turn = b2.current_turn.opposite();
+            note(bv::scratch_key(&b2), "turn".into(), &mut total, &mut changed, &mut acc);
+        }
+        for ck in [CastlingKind::WhiteKingside, CastlingKind::WhiteQueenside, CastlingKind::BlackKingside, CastlingKind::BlackQueenside] {
+            let mut b2 = b.clone();
+            let avail = b.castle_status(ck) == CastlingStatus::Available;
+            bv::set_castling(&mut b2, ck, !avail);
+            note(bv::scratch_key(&b2), format!("right{}", usize::from(ck)), &mut total, &mut changed, &mut acc);
+        }
+        let cur = bv::en_passant_file(b);
+        for f in 0..9u8 {
+            let newf = if f == 8 { None } else { Some(f) };
+            if newf == cur {
+                continue;
+            }
+            let mut b2 = b.clone();
+            bv::set_en_passant_file(&mut b2, newf);
+            note(bv::scratch_key(&b2), format!("ep{f}"), &mut total, &mut changed, &mut acc);
+        }
+        writeln!(self.out, "P {total} {changed} {acc:x} {}", fails.join(",")).unwrap();
     }
 }
 
@@ -178,7 +240,7 @@ pub fn walk(args: &[String]) {
     let seed: u64 = arg(args, "seed", 1);
     let mut rng = Rng(seed.wrapping_mul(0x1000_0000_01B3).wrapping_add(shard));
     let out = std::io::stdout();
-    let mut e = Emit { out: std::io::BufWriter::with_capacity(1 << 20, out.lock()), positions: 0 };
+    let mut e = Emit { out: std::io::BufWriter::with_capacity(1 << 20, out.lock()), positions: 0, perturb_every: arg(args, "perturb-every", 16) };
 
     // corpus of minimised past failures first (one FEN + moves per line)
     if let Some(path) = arg_str(args, "corpus") {
@@ -293,7 +355,7 @@ pub fn fen_stream(args: &[String]) {
     let seed: u64 = arg(args, "seed", 1);
     let mut rng = Rng(seed.wrapping_mul(0x1000_0000_01B3).wrapping_add(shard).wrapping_add(77));
     let out = std::io::stdout();
-    let mut e = Emit { out: std::io::BufWriter::with_capacity(1 << 20, out.lock()), positions: 0 };
+    let mut e = Emit { out: std::io::BufWriter::with_capacity(1 << 20, out.lock()), positions: 0, perturb_every: arg(args, "perturb-every", 16) };
     let mut n = 0;
     while n < count {
         let fen0 = SEEDS[(rng.below(SEEDS.len() as u64)) as usize];
